@@ -142,6 +142,8 @@ class Election:
         "post-election sanity check"
         nElected = len(self.elected)
         nEligible = len(self.C.eligible())
+        if not getattr(self.rule, 'undeclaredElectable', True):
+            nEligible -= len([c for c in self.C.eligible() if c.isUndeclared])
         assert(nElected == self.nSeats or
                nElected < self.nSeats and nElected == nEligible)
 
